@@ -38,6 +38,8 @@ VERIF = os.path.dirname(HERE)
 # deviation switches of spec/AyDump.tla that reproduce the code as it is (every one is a finding on the pinned tree)
 ASIS = ["ElideDelDefault", "ElideDelParent", "ElideNewDefault", "ElideSafeDefault", "ElideSafeParent", "PlainTagNotPushed",
         "SafeTagTrue", "NullDropsFlags", "ClearNoValue", "PathNoRefWraps", "ReprQuoting"]
+if os.environ.get("C18_ASIS") is not None:      # e.g. C18_ASIS="" AY_REPO=<tree with the proposed fix>: the library against the intended design
+    ASIS = [x for x in os.environ["C18_ASIS"].split(",") if x]
 INVS = ["Inv_DumpOk", "Inv_Interchangeable", "Inv_SameValue", "Inv_SameMd", "Inv_DumpStable"]
 
 FINDINGS = {  # switch -> (finding id, call site, what fails)
@@ -411,11 +413,16 @@ def judge_pair(rt, model, ctxs_of, text0, safe, rng, nsample):
         if oa != ob:
             real["ic"] = False
             what = "error" if ("err" in oa) != ("err" in ob) or oa.get("err") != ob.get("err") else \
-                ("merged tree" if oa.get("obs") != ob.get("obs") else "evaluation")
+                ("evaluation" if oa.get("eval") != ob.get("eval") else
+                 "merged data" if _strip(oa.get("obs")) != _strip(ob.get("obs")) else "flags of the merged tree")
             res["ctx_bad"].append({"ctx": c, "differs_in": what})
             if len(res["ctx_bad"]) >= 2:
                 break
     return res
+
+
+def _strip(o):
+    return None if o is None else {"k": o["k"], "v": o["v"], "fn": o["fn"], "ref": o["ref"], "md": o["md"], "ch": [[k, _strip(c)] for k, c in o["ch"]]}
 
 
 def classify(real, model_broken_set, a_agree, parse_agree):
@@ -916,11 +923,15 @@ def run(prop, tier, seed, replay, keep):
                     for sw in (jd["fired"] if "detail" in jd else []):
                         slot = known_hits.setdefault(sw, [0, None])
                         slot[0] += 1
-                        y = jd["detail"]["yaml"]
-                        if slot[1] is None or len(y) < len(slot[1]["yaml"]):
-                            slot[1] = {"yaml": y, "dumped": jd["detail"]["dumped"], "outcome": jd["detail"]["outcome"], "error": jd["detail"]["error"],
+                        d = jd["detail"]
+                        hard = (not all(jd["real"][k] for k in ("dump", "reparse", "sv", "md"))) or \
+                            any(cb["differs_in"] != "flags of the merged tree" for cb in d["ctx_bad"])
+                        score = (0 if len(jd["fired"]) == 1 else 1, 0 if hard else 1, len(d["yaml"]))
+                        if slot[1] is None or score < tuple(slot[1]["score"]):
+                            slot[1] = {"yaml": d["yaml"], "dumped": d["dumped"], "outcome": d["outcome"], "error": d["error"],
                                        "broken": sorted(k for k, v in jd["real"].items() if not v), "safe_source": jd["s"],
-                                       "history": (jd["detail"]["ctx_yaml"] or [None])[0]}
+                                       "history": (d["ctx_yaml"] or [None])[0],
+                                       "differs_in": (d["ctx_bad"] or [{}])[0].get("differs_in"), "score": list(score)}
                 elif jd["cls"] == "viol":
                     if len(violations) < 25:
                         d = jd["detail"]
@@ -1015,7 +1026,8 @@ def run(prop, tier, seed, replay, keep):
                     slot[0] += 1
                     if slot[1] is None:
                         slot[1] = {"yaml": t["yaml"], "dumped": t["dumped"], "outcome": t["out"], "error": t["err"],
-                                   "broken": sorted(k for k, ok in real.items() if not ok), "safe_source": t["s"], "history": None}
+                                   "broken": sorted(k for k, ok in real.items() if not ok), "safe_source": t["s"], "history": None,
+                                   "differs_in": None, "score": [2, 2, len(t["yaml"])]}
             elif cls == "viol":
                 if len(violations) < 25:
                     hist = [[S.render_doc(x) for x in c["pre"]] + ["<the document>"] + [S.render_doc(x) for x in c["post"]]
@@ -1057,8 +1069,13 @@ def run(prop, tier, seed, replay, keep):
         if sw in known_hits:
             fid, site, what = FINDINGS[sw]
             n, wit = known_hits[sw]
-            known_lines.append("KNOWN-FINDING: property=%s %s %s [deviation switch %s at %s; explains %d round trips; witness: %s]"
-                               % (PROP, fid, what, sw, site, n, json.dumps(wit["yaml"]) if wit else "-"))
+            hist = ""
+            if wit and wit.get("history"):
+                hist = " in the history " + json.dumps([h if h == "<the document>" else h.strip() for h in wit["history"]]) + \
+                       " (differs in: %s)" % wit.get("differs_in")
+            known_lines.append("KNOWN-FINDING: property=%s %s %s [deviation switch %s at %s; explains %d round trips; witness: %s%s%s]"
+                               % (PROP, fid, what, sw, site, n, json.dumps(wit["yaml"]) if wit else "-",
+                                  " (source added with safe=False)" if wit and not wit["safe_source"] else "", hist))
             cov["known_findings_hit"].append({"id": fid, "switch": sw, "round_trips": n, "witness": wit})
     cov["deviation_switches_on"] = ASIS
     cov["rule"] = ("direction A: every document of the named universes (distinct by construction) is one case; non-trivial = the library's "
